@@ -480,6 +480,8 @@ def run_scenario(doc, full_trace=False):
         }
     else:
         raise seams.HarnessError("mgrsim does not serve %s" % prop)
+    if extra.get("sticky_pre_timeout"):
+        S.probe("sticky_pre_timeout_leniency", extra["sticky_pre_timeout"])
     res = _finish(doc, S, violations, extra)
     if full_trace:
         res["trace"] = S.full_trace
@@ -959,8 +961,8 @@ def jobs(prop, verif_seed, n, tier):
             if not cand:
                 continue
             doc.pop("fault_plan", None)
-            doc["orders"] = {"op": g_pick(cand, verif_seed, idx), "max": 120 if tier == "quick" else 400}
-            yield {"id": "orders%d" % made, "engine": NAME, "func": "orders", "doc": doc, "wall_cap": 900}
+            doc["orders"] = {"op": g_pick(cand, verif_seed, idx), "max": 120 if tier == "quick" else 160}
+            yield {"id": "orders%d" % made, "engine": NAME, "func": "orders", "doc": doc, "wall_cap": 2400}
             made += 1
     if prop == "C14":
         ns = int(os.environ.get("VERIF_SWEEPS") or SPECS["C14"]["sweeps_" + tier])
@@ -977,7 +979,7 @@ def jobs(prop, verif_seed, n, tier):
                 continue
             doc.pop("fault_plan", None)
             doc["sweep"] = {"op": cand[0], "max_positions": 120 if tier == "quick" else 400}
-            yield {"id": "sweep%d" % made, "engine": NAME, "func": "sweep", "doc": doc, "wall_cap": 600}
+            yield {"id": "sweep%d" % made, "engine": NAME, "func": "sweep", "doc": doc, "wall_cap": 2400}
             made += 1
     for i in range(n):
         yield {"id": jid, "engine": NAME, "func": "execute", "doc": generate(prop, verif_seed, i, tier), "wall_cap": 120}
